@@ -5,6 +5,11 @@
 
   * `per_connection_order`, `first_transmission_order`: proved as stated, for all scripts, fault
     sequences and configurations (both follow from the stronger `global_order`).
+  * `request_order`, `first_request_transmission_order`, `first_transmissions_subsequence`: the same
+    for requests of ALL kinds (publish, subscribe, unsubscribe), for every script without any
+    hypothesis, in terms of a ghost labelling of the request packets that tells the application's
+    requests from the library's own re-subscriptions; `labels_match_wire` ties the labelling to the
+    wire log packet by packet. (Separate section at the end of this file.)
   * `first_delivery_order`: the statement as given is FALSE OF THE MODEL for an invalid QoS value
     (`.app (.pub m 3)`), see `first_delivery_order_asStated_false`; with the extra hypothesis
     `ValidQos s` (every submitted QoS is ≤ 2) it is proved, and in fact in the stronger form
@@ -87,7 +92,7 @@ def first_delivery_order_asStated : Prop :=
 def cexQos3 : Script :=
   { method := .onPubrel,
     evs := [.start, .dialOk 0, .connackOk true [], .app (.pub 1 3), .app (.pub 2 1), .peerClose,
-            .dialOk 0, .connackOk true [], .app (.pub 3 2)] }
+            .waitElapsed, .dialOk 0, .connackOk true [], .app (.pub 3 2)] }
 
 example : (exec cexQos3).broker.delivered = [2, 1] := by decide +kernel
 
@@ -107,8 +112,8 @@ def demo : Script :=
   { faults := [.ok, .lostReq, .lostAck, .ok, .ok, .ok, .writeFail],
     evs := [.start, .dialOk 10, .connackOk false [],
             .app (.pub 1 1), .app (.pub 2 1), .app (.pub 3 2), .app (.pub 4 0),
-            .dialOk 20, .app (.pub 5 1), .connackOk true [],
-            .app (.pub 6 0), .dialOk 30, .connackOk true [], .app (.pub 7 1)] }
+            .waitElapsed, .dialOk 20, .app (.pub 5 1), .connackOk true [],
+            .app (.pub 6 0), .waitElapsed, .dialOk 30, .connackOk true [], .app (.pub 7 1)] }
 
 example : Script.Increasing demo := by simp [Script.Increasing, demo]
 example : ValidQos demo := by simp [ValidQos, demo]; omega
@@ -121,5 +126,137 @@ example : (exec demo).retryQ = [.rePublish 5 1, .qPub 7 1] := by decide +kernel
 example : (exec demo).broker.delivered = [1, 2, 2, 3] := by decide +kernel
 example : firsts ((exec demo).broker.delivered.filter (fun m => qosOfMsg demo m ≥ 1)) = [1, 2, 3] := by
   decide +kernel
+
+/-! ### non-vacuity for the refined reconnect loop: back-off timer, Disconnect while backing off,
+    Disconnect during a dial that then succeeds, cancelled Connect context -/
+
+def sA : Subscription := { topic := [97], qos := 1 }
+def sB : Subscription := { topic := [98], qos := 0 }
+
+/-- Disconnect while the loop waits in `.backoff`: the loop exits, `.waitElapsed` / `.dialOk` are void,
+    the failed message 1 and the queued Subscribe stay in the retry queue, nothing is reordered -/
+def demoDiscBackoff : Script :=
+  { faults := [.lostReq],
+    evs := [.start, .dialOk 10, .connackOk false [], .app (.pub 1 1), .app (.sub [sA]),
+            .disconnect, .waitElapsed, .dialOk 20, .app (.pub 2 1)] }
+
+example : (execTrace demoDiscBackoff).map (·.phase) =
+    [.dialGate, .connackGate 0, .up 0, .backoff, .backoff, .exited, .exited, .exited, .exited] := by decide +kernel
+example : (exec demoDiscBackoff).conns.map (fun c => pubMsgs c.pkts) = [[1]] := by decide +kernel
+example : (exec demoDiscBackoff).retryQ = [.rePublish 1 1, .qSub [sA]] := by decide +kernel
+example : ((exec demoDiscBackoff).dials, (exec demoDiscBackoff).rejected) = (1, 1) := by decide +kernel
+
+/-- Disconnect while the loop is inside DialContext (after `.waitElapsed`); the dial then succeeds:
+    CONNECT goes out on the new connection, no request does, the queue is left as it was -/
+def demoDiscDial : Script :=
+  { faults := [.lostReq],
+    evs := [.start, .dialOk 10, .connackOk false [], .app (.pub 1 1), .waitElapsed, .app (.unsub [[97]]),
+            .disconnect, .dialOk 20, .connackOk true [], .app (.pub 2 1)] }
+
+example : (execTrace demoDiscDial).map (·.phase) =
+    [.dialGate, .connackGate 0, .up 0, .backoff, .dialGate, .dialGate, .dialGate, .connackGate 1, .exited, .exited] := by
+  decide +kernel
+example : (exec demoDiscDial).conns.map (fun c => c.pkts.map (·.1)) =
+    [[.connect, .publish 1 1 11 false, .disconnect], [.connect]] := by decide +kernel
+example : (exec demoDiscDial).retryQ = [.rePublish 1 1, .qUnsub [[97]]] := by decide +kernel
+example : (exec demoDiscDial).dials = 2 := by decide +kernel
+
+/-- the context of Connect is cancelled while CONNACK is awaited: the connection is closed, the task
+    goroutine is released and attempts the waiting message 1 on the closed transport; the later
+    requests queue up behind its handle in submission order -/
+def demoCancel : Script :=
+  { evs := [.start, .dialOk 10, .app (.pub 1 1), .app (.sub [sA]), .cancelCtx, .app (.pub 2 1),
+            .waitElapsed, .dialOk 20] }
+
+example : (execTrace demoCancel).map (·.phase) =
+    [.dialGate, .connackGate 0, .connackGate 0, .connackGate 0, .exited, .exited, .exited, .exited] := by
+  decide +kernel
+example : (exec demoCancel).conns.map (fun c => c.pkts) =
+    [[(.connect, .sent .ok), (.publish 1 1 11 false, .dead)]] := by decide +kernel
+example : (exec demoCancel).retryQ = [.rePublish 1 1, .qSub [sA], .qPub 2 1] := by decide +kernel
+example : ((exec demoCancel).dials, (exec demoCancel).connectErr) = (1, true) := by decide +kernel
+
+/-! ## ALL REQUEST KINDS (publish, subscribe, unsubscribe) -/
+
+/-- the ghost labelling of the request packets (PUBLISH, SUBSCRIBE, UNSUBSCRIBE) attempted on the
+    wire during the run, in wire order: `some i` — an attempt of the application's `i`-th request
+    (`i` counts the `.app` events of the script from 0), `none` — a SUBSCRIBE of the library's own
+    re-subscription pass -/
+def reqLabels (s : Script) : List Lab := (gExec s).out
+
+/-- the attempts of the application's requests, in wire order, by submission index -/
+def reqAttempts (s : Script) : List Nat := apps (reqLabels s)
+
+/-- the application's requests in the order in which they were attempted for the first time -/
+def firstTransmitted (s : Script) : List Req :=
+  (firsts (reqAttempts s)).filterMap (fun i => (appReqs s.evs)[i]?)
+
+/-- The labelling is faithful to the wire log `Conn.pkts`: there are exactly as many labels as there are
+    request packets, the packet labelled `some i` has the content (key) of the `i`-th request, a packet
+    labelled `none` is a single-filter SUBSCRIBE. For every script, fault sequence and configuration. -/
+theorem labels_match_wire (s : Script) :
+    All2 (LabKey (appReqs s.evs)) (reqLabels s) (wireKeys (exec s)) :=
+  gExec_wire s
+
+/-- Attempts of the application's requests of ALL kinds reach the wire in submission order
+    (a retransmission repeats an index). No hypothesis on the script. -/
+theorem request_order (s : Script) : (reqAttempts s).Pairwise (· ≤ ·) :=
+  gatt_sorted s
+
+/-- The order in which the application's requests (publish, subscribe, unsubscribe) are attempted on
+    the wire for the first time is the submission order. -/
+theorem first_request_transmission_order (s : Script) : (firsts (reqAttempts s)).Pairwise (· < ·) :=
+  firsts_pairwise_lt (gatt_sorted s)
+
+/-- … in terms of the requests themselves: listed in the order of their first transmission they form
+    a subsequence of the submitted requests (requests never transmitted — QoS 0 publishes dropped during
+    an outage, requests still queued or refused at the end — are left out, nothing is reordered). -/
+theorem first_transmissions_subsequence (s : Script) : (firstTransmitted s).Sublist (appReqs s.evs) := by
+  have h := filterMap_getElem_sublist (appReqs s.evs) 0 (firsts (reqAttempts s))
+    (first_request_transmission_order s) (fun _ _ => Nat.zero_le _)
+  simpa [firstTransmitted] using h
+
+/-! ### non-vacuity: all three kinds, faults, three connections (each reached through `.waitElapsed`),
+    retransmissions, two dropped QoS 0 publishes, two re-subscription passes of the library -/
+
+def demoAll : Script :=
+  { faults := [.ok, .ok, .lostReq, .ok, .ok, .ok, .ok, .lostAck],
+    evs := [.start, .dialOk 10, .connackOk false [],
+            .app (.sub [sA, sB]), .app (.pub 1 1), .app (.sub [sA]), .app (.pub 2 0), .app (.unsub [[98]]),
+            .app (.pub 3 1),
+            .waitElapsed, .dialOk 20, .connackOk false [], .app (.sub [sB]), .app (.pub 4 0),
+            .waitElapsed, .dialOk 30, .app (.pub 5 2), .connackOk false [], .disconnect, .app (.pub 6 1)] }
+
+/-- request 2 (`sub [sA]`) is lost and retransmitted, so is request 6 (`sub [sB]`, acknowledgement lost,
+    retransmitted on the third connection); requests 3 and 7 (QoS 0) are dropped; the three
+    `none` are the library's re-subscriptions (`[sA]` on the second connection, `[sA]`, `[sB]` on the third);
+    request 9 is refused after Disconnect -/
+example : reqLabels demoAll =
+    [some 0, some 1, some 2, some 2, some 4, some 5, none, some 6, some 6, some 8, none, none] := by
+  decide +kernel
+example : wireKeys (exec demoAll) =
+    [.sub [sA, sB], .pub 1, .sub [sA], .sub [sA], .unsub [[98]], .pub 3, .sub [sA], .sub [sB], .sub [sB],
+     .pub 5, .sub [sA], .sub [sB]] := by decide +kernel
+example : firstTransmitted demoAll =
+    [.sub [sA, sB], .pub 1 1, .sub [sA], .unsub [[98]], .pub 3 1, .sub [sB], .pub 5 2] := by decide +kernel
+example : (exec demoAll).conns.length = 3 := by decide +kernel
+
+/-- Why the origin of a SUBSCRIBE cannot be read off its content: the library re-subscribes `[sA]` (after
+    the session was lost) BEFORE the application submits `pub 2` and then its own `sub [sA]`. Identifying
+    requests by content would see "`sub [sA]` transmitted before `pub 2`", against the submission order
+    (request 1 = `pub 2`, request 2 = `sub [sA]`); the labelling attributes the early packet to the library. -/
+def demoAmbiguous : Script :=
+  { evs := [.start, .dialOk 10, .connackOk false [], .app (.sub [sB, sA]), .peerClose, .waitElapsed, .dialOk 20,
+            .connackOk false [], .app (.pub 2 1), .app (.sub [sA])] }
+
+example : wireKeys (exec demoAmbiguous) = [.sub [sB, sA], .sub [sB], .sub [sA], .pub 2, .sub [sA]] := by
+  decide +kernel
+example : reqLabels demoAmbiguous = [some 0, none, none, some 1, some 2] := by decide +kernel
+
+/-- in the three runs above (Disconnect in `.backoff`, Disconnect in `.dialGate`, cancelled context) only
+    request 0 is ever attempted -/
+example : reqLabels demoDiscBackoff = [some 0] := by decide +kernel
+example : reqLabels demoDiscDial = [some 0] := by decide +kernel
+example : reqLabels demoCancel = [some 0] := by decide +kernel
 
 end Mqtt.C03
